@@ -849,6 +849,9 @@ func (t *fnTrans) frameCond(name string, st *State) Term {
 	if sv == nil || !(sv.Heap || sv.Kind == "ghost") {
 		return ""
 	}
+	if sv.Free && !t.keepsGhost(t.fc, name) {
+		return "" // free ghosts are outside the frame unless the contract says `keeps`
+	}
 	if sv.Kind == "chan" && !t.fc.NoChan {
 		return "" // channel counters are outside the frame unless the contract says `nochan`
 	}
@@ -870,4 +873,39 @@ func (t *fnTrans) frameCond(name string, st *State) Term {
 		return fmt.Sprintf("(forall ((fr Int)) (! (=> (and (<= fr %s)%s) (= (select %s fr) (select %s_0 fr))) :pattern ((select %s fr))))", t.get(t.entrySt, "alloc"), ex, cur, name, cur)
 	}
 	return fmt.Sprintf("(= %s %s_0)", cur, name)
+}
+
+// keepsGhost: does contract fc promise (clause `keeps`) to leave the free ghost with state variable `name` unchanged?
+// A name in `keeps` stands for its whole ghostgroup.
+func (t *fnTrans) keepsGhost(fc *FuncContract, name string) bool {
+	if fc == nil {
+		return false
+	}
+	for _, k := range fc.Keeps {
+		if "gh_"+sanitize(k) == name {
+			return true
+		}
+		for _, grp := range t.eng.contracts.GhostGroups {
+			in := false
+			if len(grp) > 1 && grp[0] == "<lead>" {
+				in = grp[1] == k
+				grp = grp[1:]
+			} else {
+				for _, n := range grp {
+					if n == k {
+						in = true
+					}
+				}
+			}
+			if !in {
+				continue
+			}
+			for _, n := range grp {
+				if "gh_"+sanitize(n) == name {
+					return true
+				}
+			}
+		}
+	}
+	return false
 }
